@@ -194,6 +194,7 @@ class Monitor(object):
         self.pending = None       # an armed fail-on-return fault
         self.raise_n = {}         # depth of a pydl frame -> event count when an exception last arrived in it
         self.not_delivered = 0    # return-faults whose call raised by itself (nothing to add)
+        self.tv0 = None           # values of the touched variables when the invocation started
 
     def _tv(self):
         g = os.environ.get
@@ -340,8 +341,10 @@ class Monitor(object):
                 cleanup = None
                 if hdepth is not None:
                     cleanup = sorted(i for i, dg in anc if dg >= hdepth)
+                val = fr.f_locals.get('value') if op == 'set' else None
                 rec = dict(op=op, key=key, at=self.n, enclosing=sorted(i for i, _ in anc),
                            stack=stack, cleanup=cleanup, hdepth=hdepth,
+                           val=val if (val is None or isinstance(val, str)) else ['not-a-string'],
                            arrived=self.raise_n.get(hdepth) if hdepth is not None else None)
                 if key in self.touched:
                     self.mutations.append(rec)
@@ -358,6 +361,32 @@ class Monitor(object):
                                       code.co_qualname)
         self._event(caller, label, True, 'PY_START')
         return None
+
+
+_C_ENVIRON = None
+
+
+def c_environ():
+    """The process environment as the C library holds it (what a child process would
+    inherit), independent of the os.environ mapping: os.putenv()/os.unsetenv() and C
+    extensions change it without os.environ noticing.  -> {name: value} (str, surrogateescape)."""
+    global _C_ENVIRON
+    import ctypes
+    if _C_ENVIRON is None:
+        _C_ENVIRON = ctypes.POINTER(ctypes.c_char_p).in_dll(ctypes.CDLL(None), 'environ')
+    out = {}
+    i = 0
+    arr = _C_ENVIRON
+    while True:
+        item = arr[i]
+        if item is None:
+            break
+        k, _, v = item.partition(b'=')
+        k = os.fsdecode(k)
+        if k not in out:            # getenv() returns the first match
+            out[k] = os.fsdecode(v)
+        i += 1
+    return out
 
 
 def _claim():
@@ -382,6 +411,8 @@ def run_monitored(fn, touched, fault=None, keep_events=True):
     mon.set_events(TOOL, EV.CALL | EV.PY_START | EV.RAISE)
     outcome = ('returned', None)
     before = dict(os.environ)
+    c_before = c_environ()
+    m.tv0 = m._tv()
     m.active = True
     try:
         fn()
@@ -396,12 +427,19 @@ def run_monitored(fn, touched, fault=None, keep_events=True):
     finally:
         m.active = False
         after = dict(os.environ)
+        c_after = c_environ()
         m.disarm()
         mon.set_events(TOOL, 0)
         mon.register_callback(TOOL, EV.CALL, None)
         mon.register_callback(TOOL, EV.PY_START, None)
         mon.register_callback(TOOL, EV.INSTRUCTION, None)
         mon.register_callback(TOOL, EV.RAISE, None)
+    # second observation level: the C-level environment.  Reported under 'libc:NAME' keys, and
+    # only where the os.environ mapping shows no difference for NAME (no double counting).
+    for k in set(c_before) | set(c_after):
+        if c_before.get(k) != c_after.get(k) and before.get(k) == after.get(k):
+            before['libc:' + k] = c_before.get(k)
+            after['libc:' + k] = c_after.get(k)
     return m, outcome, before, after
 
 
@@ -445,6 +483,98 @@ def admissibility(m):
             break
         first[mu['key']] = mu['at']
     return r, frozenset(open_at_r)
+
+
+def fault_windows(m):
+    """Rule 1 generalised to code that perturbs and restores the touched variables several
+    times in one call (DESIGN.md 5.4, rule 1d).  -> (limit, blocked, windows, open_calls):
+    events < limit that are in no `blocked` range [(lo, hi)) are fault points; `windows`
+    [(a, lo)] are the perturbed stretches (one per cycle); `open_calls` are calls in
+    progress at some restoring mutation (no fail-on-return for them).
+
+    A cycle starts at a mutation made while no cycle is open; the first *second* mutation of
+    a variable inside the cycle starts its restoration (lo = outermost call that began after
+    the cycle's first perturbation and is still in progress, else the event count); the cycle
+    is complete when every variable it perturbed was mutated again and the touched variables
+    have their entry values.  [lo, completing mutation) is the restoration mechanism and
+    never a fault point.  After a complete cycle the scan continues; a clean-up mutation on
+    the exception path, an incomplete cycle or any inconsistency in the value tracking stops
+    it at the conservative single-limit answer of `admissibility`."""
+    r0, open0 = admissibility(m)
+    conservative = (r0, [], [(min((mu['at'] for mu in m.mutations), default=r0), r0)] if m.mutations else [],
+                    frozenset(open0))
+    tv0 = getattr(m, 'tv0', None)
+    if tv0 is None or not m.events:
+        return conservative
+    entry = dict(zip(m.touched, tv0)) if hasattr(m, 'touched') else None
+    if entry is None:
+        return conservative
+    cur = dict(entry)
+    first = {}
+    again = set()
+    restoring = False
+    lo = None
+    blocked, windows = [], []
+    open_calls = set()
+    limit = m.n
+    muts = m.mutations
+    nev = len(m.events)
+    for idx, mu in enumerate(muts):
+        if mu.get('cleanup') is not None or isinstance(mu.get('val'), list):
+            # the exception path (rule 1b/1c) or a mutation that cannot succeed: stop here,
+            # with the limit the single-cycle rule gives when it is applied to this cycle only
+            limit = _limit_from(m, muts, idx, first)
+            if first and not restoring:
+                windows.append((min(first.values()), limit))
+            open_calls.update(mu['enclosing'])
+            break
+        if not restoring:
+            if mu['key'] in first:
+                at_perturb = min(first.values())
+                ronly = [a for a in mu['enclosing'] if a >= at_perturb]
+                lo = min(ronly) if ronly else mu['at']
+                windows.append((at_perturb, lo))
+                restoring = True
+                again = set([mu['key']])
+                open_calls.update(mu['enclosing'])
+            else:
+                first[mu['key']] = mu['at']
+        else:
+            again.add(mu['key'])
+            open_calls.update(mu['enclosing'])
+        cur[mu['key']] = mu.get('val') if mu['op'] == 'set' else None
+        # the tracked values must agree with what the next event saw
+        nxt = muts[idx + 1]['at'] if idx + 1 < len(muts) else m.n
+        if mu['at'] < nev and mu['at'] < nxt:
+            if tuple(m.events[mu['at']]['tv']) != tuple(cur[v] for v in m.touched):
+                return conservative
+        if restoring and again >= set(first) and cur == entry:
+            blocked.append((lo, mu['at']))
+            first, again, restoring, lo = {}, set(), False, None
+    else:
+        if restoring:
+            limit = min(limit, lo)
+    if not blocked:
+        return conservative
+    return limit, blocked, windows, frozenset(open_calls)
+
+
+def _limit_from(m, muts, idx, first):
+    """The single-cycle rule (see admissibility) applied at clean-up mutation muts[idx], with
+    `first` = the perturbing mutations of the cycle that is open at that instant."""
+    mu = muts[idx]
+    c = mu.get('cleanup')
+    cand = c[0] if c else mu['at']
+    if mu.get('arrived') is not None and m.events:
+        deeper = [e['i'] for e in m.events[mu['arrived']:mu['at']] if e['d'] > mu['hdepth']]
+        if deeper:
+            cand = min(cand, deeper[0])
+    if first:
+        at_perturb = min(first.values())
+        ronly = [a for a in mu['enclosing'] if a >= at_perturb]
+        if ronly:
+            cand = min(cand, min(ronly))
+    return cand
 
 
 def admissible_limit(m):
